@@ -102,6 +102,21 @@ def tlsgateOp (toks : List String) : String :=
     model ++ "\t" ++ oracle
   | none => "bad-case"
 
+/-- `nlagate <which> <junk>`: Hybrid selected, TLS established, CredSSP round `which` answered with bytes that are
+    not a TSRequest — the connector trace model with the later phases stopping there -/
+def nlagateOp (toks : List String) : String :=
+  match toks with
+  | [_, which, _] =>
+    match which.toNat? with
+    | some k =>
+      let confirm : Bytes := [0x0e, 0xd0, 0, 0, 0, 0, 0, 2, 0, 8, 0] ++ encInt .le 4 2
+      let tr := Connector.trace ⟨true, false, false⟩ ⟨confirm, true, true, k - 1⟩
+      let mcs := (tr.filter fun e => e == .mcsConnectInitial || e == .mcsSetup || e == .clientInfo).length
+      let okc := tr.contains .clientInfo
+      "connect=" ++ (if okc then "ok" else "E") ++ " mcs=" ++ toString mcs ++ "\tconnect=E mcs=0"
+    | none => "bad-case"
+  | _ => "bad-case"
+
 /-- `strict <kind> <hex>`: the strict reference decoder on bytes the implementation wrote -/
 def strictOp (toks : List String) : String :=
   match toks with
